@@ -1,5 +1,6 @@
 import RbV.Ref.BS
 import RbV.Model.LFMapping
+import RbV.Model.LFSortedCheck
 /-!
 # C05 — FM-index backward search returns exactly the pattern's occurrences
 
@@ -173,6 +174,21 @@ theorem backward_search_correct (t sa pat : List Nat) (hp : pat ≠ []) (hn : 0 
     BSProp t sa pat
       (BSModel.backwardSearch (LF.lessRef (LF.bwtOf t sa)) (LF.occRef (LF.bwtOf t sa)) sa.length pat) :=
   LF.backwardSearch_correct t sa pat hp hn hsent hsorted
+
+/-- the same with the sortedness hypothesis given as the Boolean `LF.sortedAllB t sa` (permutation test plus
+conditions on adjacent rows only), which the driver evaluates on the array the implementation printed -/
+theorem backward_search_correct_decidable (t sa pat : List Nat) (hp : pat ≠ []) (hn : 0 < t.length)
+    (hsent : ∀ a ∈ pat, t.getD (t.length - 1) 0 < a)
+    (hsorted : LF.sortedAllB t sa = true) :
+    BSProp t sa pat
+      (BSModel.backwardSearch (LF.lessRef (LF.bwtOf t sa)) (LF.occRef (LF.bwtOf t sa)) sa.length pat) :=
+  backward_search_correct t sa pat hp hn hsent
+    (fun a ha => LF.sortedAllB_sound t sa hsorted a (Nat.ne_of_lt (hsent a ha)))
+
+example : BSProp [3, 1, 4, 4, 1, 2, 1, 0] [7, 6, 4, 1, 5, 0, 3, 2] [3, 4, 1, 2, 1]
+    (BSModel.backwardSearch (LF.lessRef (LF.bwtOf [3, 1, 4, 4, 1, 2, 1, 0] [7, 6, 4, 1, 5, 0, 3, 2]))
+      (LF.occRef (LF.bwtOf [3, 1, 4, 4, 1, 2, 1, 0] [7, 6, 4, 1, 5, 0, 3, 2])) 8 [3, 4, 1, 2, 1]) :=
+  backward_search_correct_decidable _ _ _ (by decide) (by decide) (by decide) (by decide)
 
 /-- … hence accepted by the oracle: on a sorted index the checker and the mirror model agree -/
 theorem model_accepted (t sa pat : List Nat) (hp : pat ≠ []) (hn : 0 < t.length)
